@@ -234,11 +234,60 @@ fn enumerate_c02(cli: &Cli, r: &Report) {
             }
         }
     }
+    // Threads that perform no allocator operation at all next to threads that do: figures must stay with
+    // the thread (and sample) that produced them, whatever the position of the silent thread.
+    for (entry, ishape, oshape) in [(0usize, 0usize, 0usize), (2, 2, 0), (2, 3, 3), (4, 2, 3)] {
+        for threads in [2usize, 3] {
+            for mask in 1u32..(1 << threads) - 1 {
+                for n in [1u32, 2 * threads as u32] {
+                    let mut base = LoopCase::basic(entry, ishape, oshape);
+                    base.alloc = [2, 0, 2, 3, 1];
+                    base.alloc_threads = Some(mask);
+                    base.threads = threads;
+                    base.sample_count = Some(n);
+                    base.sample_size = Some(2);
+                    index += 1;
+                    if cli.mine(index) {
+                        check(r, "C02", &base, index);
+                    }
+                }
+            }
+        }
+    }
     r.set_bounds(json!({
+        "silent_threads": "4 entry/shape classes x T in {2,3} x every proper non-empty subset of allocating threads x 1 or 2 rounds (real threads)",
         "lazy_allocation": "every shape x allocation only before round 1/2/4 x T in {1,2} x site in {call, generator, output drop}, automatic sample size",
         "alloc_scripts_per_site": nscripts, "sites": SITE_NAMES, "path_classes": path_classes().len(),
         "sample_sizes": [1,2], "plus": "all 72 (entry,shape) combinations with one fixed script vector, explicit and tuned size"
     }));
+}
+
+/// C08 on real threads (one schedule per case; the loom exploration decides the ordering clauses): what
+/// does not depend on the schedule - every sample carries the tally of the thread at its position, also
+/// next to threads that perform no allocator operation - for T in {2, 3}, one and two rounds.
+fn enumerate_c08_threads(cli: &Cli, r: &Report) {
+    let mut index = 1_000_000u64;
+    for (entry, ishape, oshape) in [(0usize, 0usize, 0usize), (2, 2, 0), (2, 3, 3), (4, 2, 3), (4, 3, 1)] {
+        for threads in [2usize, 3] {
+            for mask in 1u32..(1 << threads) {
+                for n in [1u32, 2 * threads as u32] {
+                    for s in [1u32, 2] {
+                        let mut base = LoopCase::basic(entry, ishape, oshape);
+                        base.alloc = [2, 0, 2, 3, 1];
+                        base.alloc_threads = if mask == (1 << threads) - 1 { None } else { Some(mask) };
+                        base.threads = threads;
+                        base.sample_count = Some(n);
+                        base.sample_size = Some(s);
+                        base.input_counters = if entry >= 2 { 1 } else { 0 };
+                        index += 1;
+                        if cli.mine(index) {
+                            check(r, "C08", &base, index);
+                        }
+                    }
+                }
+            }
+        }
+    }
 }
 
 fn enumerate_c03(cli: &Cli, r: &Report) {
@@ -296,7 +345,11 @@ fn main() {
         r.emit();
     }
     match prop.as_str() {
-        "C01" | "C08" => enumerate_c01(&cli, &r, &prop),
+        "C01" => enumerate_c01(&cli, &r, &prop),
+        "C08" => {
+            enumerate_c01(&cli, &r, &prop);
+            enumerate_c08_threads(&cli, &r);
+        }
         "C02" => enumerate_c02(&cli, &r),
         "C03" => enumerate_c03(&cli, &r),
         p => panic!("unknown property {p}"),
